@@ -12,6 +12,7 @@ def run(vc, tier):
     if tier == 'quick':
         c.run_vx_unit('c05-shapes', src, 'asan', ['--mode', 'conf', '--set', 'shapes', '--K', 4, '--D', 1], share=0.8)
         c.run_vx_unit('c05-blocks', src, 'asan', ['--mode', 'conf', '--set', 'blocks', '--D', 0, '--exec-timeout', 60000], share=0.5)
+        c.run_vx_unit('c05-sequences', ['harness/c17_sequences.c', 'ref/edu_decoder.c'], 'asan', ['--big', 0, '--D', 0], share=0.3)      # sequence-level entry point: the C17 enumeration, frames judged by R
         c.run_vx_unit('c05-lens', src, 'asan', ['--mode', 'conf', '--set', 'lens', '--L', 200, '--D', 0], share=0.5)
         c.run_vx_unit('c05-stream', ['harness/c02_cstream.c', 'ref/edu_decoder.c'], 'asan', ['--depth', 2, '--api', 0, '--ncfg', 6, '--judge', 8], share=0.6)
         c.run_vx_unit('c05-absuffix', src, 'asan', ['--mode', 'conf', '--set', 'absuffix', '--L', 4, '--D', 0], share=0.9)
@@ -19,6 +20,8 @@ def run(vc, tier):
         c.run_vx_unit('c05-shapes', src, 'asan', ['--mode', 'conf', '--set', 'shapes', '--K', 5, '--D', 2], share=0.6)
         c.run_vx_unit('c05-shapes-big', src, 'asan', ['--mode', 'conf', '--set', 'shapes', '--K', 4, '--big', 1, '--D', 1], share=0.5)
         c.run_vx_unit('c05-blocks', src, 'asan', ['--mode', 'conf', '--set', 'blocks', '--D', 1, '--exec-timeout', 60000], share=0.4)
+        c.run_vx_unit('c05-sequences', ['harness/c17_sequences.c', 'ref/edu_decoder.c'], 'asan', ['--big', 0, '--D', 0], share=0.2)
+        c.run_vx_unit('c05-sequences-128k', ['harness/c17_sequences.c', 'ref/edu_decoder.c'], 'asan', ['--big', 1, '--D', 0, '--exec-timeout', 120000], share=0.3)
         c.run_vx_unit('c05-lens', src, 'asan', ['--mode', 'conf', '--set', 'lens', '--L', 700, '--D', 1], share=0.4)
         c.run_vx_unit('c05-stream', ['harness/c02_cstream.c', 'ref/edu_decoder.c'], 'asan', ['--depth', 3, '--api', 0, '--ncfg', 6, '--judge', 8], share=0.6)
         c.run_vx_unit('c05-absuffix', src, 'asan', ['--mode', 'conf', '--set', 'absuffix', '--L', 9, '--D', 0], share=0.9)
